@@ -151,13 +151,16 @@ pub fn char_context_space(r: &mut Run, name: &str, mask: u32, algs: Vec<Alg>) ->
     let t = r.tier;
     let g = Gamma { seps: seps(), algs, spls: vec![Spl::Hyphen], bws: vec![true, false], indents: vec![("", ""), (">", "")], crlf: vec![false] };
     let bases = g.bases();
-    r.range(name, &format!("{}; each in the texts \"ac cb\" and \"cc-c d\"; {}; widths 0..=5, MAX", scalar_desc(t), g.describe()), scalar_space(t), move |i, cx| {
+    r.range(name, &format!("{}; each in the texts \"ac cb\", \"cc-c d\" and (c other than space) \"ESC]0;c BEL a b\" (c as payload of a sequence); {}; widths 0..=5, MAX", scalar_desc(t), g.describe()), scalar_space(t), move |i, cx| {
         let c = match scalar_at(t, i) {
             Some(c) => c,
             None => return,
         };
         cx.seq = idx_seq(i);
-        for text in [format!("a{c} {c}b"), format!("{c}{c}-{c} d")] {
+        for text in [format!("a{c} {c}b"), format!("{c}{c}-{c} d"), format!("\x1b]0;{c}\x07a b")] {
+            if text.starts_with('\x1b') && c == ' ' {
+                continue; // a space inside a sequence: the ASCII separator splits there by C11 (DESIGN.md §6)
+            }
             cx.set_input(&text);
             for base in &bases {
                 for w in (0..=5).chain([usize::MAX]) {
